@@ -53,7 +53,9 @@ Qed.
 
 (* [F] at construction (DetailedPlacer's constructor builds the x and the y model over all cells of
    the circuit, pin offsets taken with the orientations of that moment) the optimised value IS
-   Circuit::hpwl of the circuit, and the state satisfies the invariant the theorems above need *)
+   Circuit::hpwl of the circuit (the Z-valued model Hpwl.hpwl; under the hypothesis `bounded` on the pin
+   positions of every net -- the sentinel loops need it; the int arithmetic of `max-min` / `value_ +=` in the
+   C++ is not part of this statement), and the state satisfies the invariant the theorems above need *)
 Theorem c05_initial_value_is_hpwl : forall cells nets subset,
   (forall net, In net nets -> bounded (map (pin_px cells) net) /\ bounded (map (pin_py cells) net)) ->
   let s := {| ox := circuit_topology true cells nets subset; oy := circuit_topology false cells nets subset |} in
@@ -283,7 +285,12 @@ Proof. exact exposed_initial. Qed.
 (* [F] C05, main: for every legal circuit of the C01 domain accepted by from_circuit and every history l1 ++ l2 of
    paired steps, the circuit exposed after l1 ++ l2 has a wirelength <= the one exposed after l1 <= the legalized
    one (successive callbacks, and the return), provided both exposed states are in the F8 scope; both circuits are
-   legal (C02) *)
+   legal (C02).  NOTE on the hypotheses: orient_frozen constrains the states REACHED by the history (not the input;
+   input-level discharge only for circuits without polarised cells: c05_no_polarity_no_restriction); phist_ok asks
+   shift_cert_ok = true of every shift step (that lemon always produces an accepted answer is not proved); int_pins
+   bounds pin coordinates only.  Totalisations outside the hypotheses: preorder maps wb = None to "unchanged",
+   row_y defaults to 0, an out-of-range pin cell gets a default cell.  The Examples below use pANY cells only
+   (orient_frozen then holds trivially). *)
 Theorem c05_exposed_wirelength_never_increases : forall c rh nets d0 l1 l2,
   std_design c rh -> legal c -> from_circuit c = DOk d0 ->
   let s0 := {| ps_d := d0; ps_o := init_models c nets |} in
